@@ -38,7 +38,7 @@ def sample_value(t, k=0):
     if c == "o":
         return "/o%d" % k
     if c == "g":
-        return "a{sv}"[: (k % 5) + 1] if (k % 5) in (0, 4) else "i"
+        return ("", "i", "a{sv}", "(ii)", "aai")[k % 5]
     if c == "v":
         return Variant("q", 3 + k)
     if c == "a":
